@@ -14,6 +14,7 @@ pub mod c12;
 pub mod c13;
 pub mod c15;
 pub mod c16;
+pub mod c17;
 pub mod c18;
 pub mod c19;
 pub mod sm2util;
@@ -35,6 +36,7 @@ pub const ALL: &[(&str, fn(&Ctx))] = &[
     ("C13", c13::run),
     ("C15", c15::run),
     ("C16", c16::run),
+    ("C17", c17::run),
     ("C18", c18::run),
     ("C19", c19::run),
 ];
